@@ -13,7 +13,7 @@ MCNext ==
     /\ Len(hist) < MaxSteps
     /\ \/ AppendLeaf /\ Step("Append", <<>>)
        \/ \E l \in ls : Remove(l) /\ Step("Remove", <<l>>)
-       \/ \E k \in cut..n : \E rw \in RWChoices(k) : Compact(k, rw) /\ Step("Compact", <<SizeOf(k), SortedSeq(rw)>>)
+       \/ \E k \in cut..n : \E rw \in RWChoices(k) : Compact(k, rw) /\ Step("Compact", <<SizeOf(k), SortedSeq(rw), SortedSeq(RemovedPreCutoff(SizeOf(k), {1 + l : l \in rw}))>>)
        \/ \E k \in cut..n : \E rw \in RWChoices(k) : Rewind(k, rw) /\ Step("Rewind", <<SizeOf(k), SortedSeq(rw)>>)
        \/ Reopen /\ Step("Reopen", <<>>)
        \/ \E p0 \in 0..U : AppendPrunedSubtree(p0) /\ Step("Subtree", <<p0>>)
@@ -22,6 +22,9 @@ View == <<vars, Len(hist)>>
 ViewNoLen == vars
 
 \* one line per behaviour that ends in a state worth replaying (something was compacted)
-Emit == (Len(hist) = MaxSteps /\ cmp # {}) => PrintT(<<"BEH", ToJson(hist)>>)
-EmitAlways == TRUE
+\* BFS: one shortest behaviour per distinct state in which something has been compacted away
+EmitStates == (cmp # {}) => PrintT(<<"BEH", ToJson(hist)>>)
+\* simulation: one line per random walk, at its last step
+EmitEnd == (Len(hist) = MaxSteps) => PrintT(<<"BEH", ToJson(hist)>>)
+SimSpec == MCSpec
 =============================================================================
